@@ -153,20 +153,28 @@ def finalize(tier, merged):
 
 
 def plan(tier, seed):
+    # cheap, decisive generators first: a budget cut-off on a loaded machine then only loses
+    # part of the (sampled / exhaustive) name x value cross
     b = []
-    step = 170 if tier == "quick" else 85
-    for lo in range(0, NSTR, step):
-        b.append({"gen": "names", "lo": lo, "hi": min(NSTR, lo + step)})
-        b.append({"gen": "values", "lo": lo, "hi": min(NSTR, lo + step)})
-    sstep = 500
-    for lo in range(0, NSEQ, sstep):
-        b.append({"gen": "seqs", "lo": lo, "hi": min(NSEQ, lo + sstep)})
     for k in ("request", "response", "push_response"):
         for chunk in CHUNKS:
             b.append({"gen": "clen", "kind": k, "chunk": chunk})
     b.append({"gen": "misc"})
     for lo in range(0, NSEQ, 1500):
         b.append({"gen": "pp_blocked", "lo": lo, "hi": min(NSEQ, lo + 1500)})
+    step = 170 if tier == "quick" else 85
+    sstep = 500
+    nv = []
+    for lo in range(0, NSTR, step):
+        nv.append({"gen": "names", "lo": lo, "hi": min(NSTR, lo + step)})
+        nv.append({"gen": "values", "lo": lo, "hi": min(NSTR, lo + step)})
+    sq = [{"gen": "seqs", "lo": lo, "hi": min(NSEQ, lo + sstep)} for lo in range(0, NSEQ, sstep)]
+    # interleave so that names, values and sequences all start early (short strings come first)
+    while nv or sq:
+        b.extend(nv[:2])
+        nv = nv[2:]
+        b.extend(sq[:1])
+        sq = sq[1:]
     if tier == "quick":
         # exhaustive for lengths <= 2 (183 x 183 pairs x 3 positions x 7 kinds), sampled beyond
         for lo in range(0, NSHORT, 12):
